@@ -17,6 +17,13 @@ def main():
     a = ap.parse_args()
     os.chdir("/verif")
     try:
+        from loguru import logger
+        logger.remove()
+    except Exception:
+        pass
+    import logging
+    logging.disable(logging.CRITICAL)
+    try:
         mod = importlib.import_module("props." + a.pid)
         obs = mod.obligations(a.tier)
     except Exception:
